@@ -73,7 +73,10 @@ package app
 //@ def C(app, i) = app.components[i]
 //@ def N(app) = len(app.components)
 //
+//@ ghost appStartFailed Bool stable
+//@ ghost appCloseCalls Int stable
 //@ func (*App).Start
+//@   sets appStartFailed = err != nil
 //@   requires app != nil
 //@   requires forall a int :: 0 <= a && a < N(app) ==> C(app, a) != nil
 //@   requires forall a int, b int :: 0 <= a && a < b && b < N(app) ==> C(app, a) != C(app, b)
@@ -118,6 +121,7 @@ package app
 // Close: closes exactly the runnable components, each once, in reverse registration order;
 // returns an error iff at least one Close returned one.
 //@ func (*App).Close
+//@   sets appCloseCalls = appCloseCalls + 1
 //@   requires app != nil
 //@   requires forall a int :: 0 <= a && a < N(app) ==> C(app, a) != nil
 //@   requires forall a int, b int :: 0 <= a && a < b && b < N(app) ==> C(app, a) != C(app, b)
@@ -174,3 +178,32 @@ package app
 //@     invariant -1 <= rangeindex && rangeindex < N(app)
 //@     invariant forall k int :: 0 <= k && k <= rangeindex ==> C(app, k).Name() != s.Name()
 //@     decreases N(app) - rangeindex
+
+// ---------------------------------------------------------------------------------------------
+// C20: child containers and lookup by type. A child container's parent is the container it was made
+// from (whatever that container holds at the time), and it starts empty. The generic lookup walks the
+// current container's own list first and then the parents': "not found" means no component of the
+// asked type is registered in the container or in its parent (first two levels stated in closed form,
+// further levels by the loop shape); a found component is of the asked type.
+//@ func (*App).AnySyncVersion
+//@   modifies nothing
+//@ func (*App).ChildApp
+//@   requires app != nil
+//@   ensures [child_of_this_container] result != nil && fresh(result) && result.parent == app
+//@   ensures [starts_empty]            len(result.components) == 0
+//@ func (*App).onComponent
+//@   modifies nothing
+//@ func GetComponent
+//@   requires app != nil
+//@   ensures [found_is_of_the_type]   result1 == nil ==> typeis(result0, "t")
+//@   ensures [not_found_means_absent] result1 != nil ==> (forall k int :: 0 <= k && k < len(app.components) ==> !typeis(app.components[k], "t")) && (app.parent != nil ==> (forall k int :: 0 <= k && k < len(app.parent.components) ==> !typeis(app.parent.components[k], "t")))
+//@   ensures [own_list_first]         (exists k int :: 0 <= k && k < len(app.components) && typeis(app.components[k], "t")) ==> result1 == nil && (exists k int :: 0 <= k && k < len(app.components) && result0 == app.components[k])
+//@   loop 0:
+//@     invariant current == app ==> true
+//@     invariant current != app ==> (forall k int :: 0 <= k && k < len(app.components) ==> !typeis(app.components[k], "t"))
+//@     invariant current != app && current != app.parent ==> app.parent != nil && (forall k int :: 0 <= k && k < len(app.parent.components) ==> !typeis(app.parent.components[k], "t"))
+//@   loop 1:
+//@     invariant -1 <= rangeindex && rangeindex < len(current.components) && current != nil
+//@     invariant forall k int :: 0 <= k && k <= rangeindex ==> !typeis(current.components[k], "t")
+//@     invariant current != app ==> (forall k int :: 0 <= k && k < len(app.components) ==> !typeis(app.components[k], "t"))
+//@     invariant current != app && current != app.parent ==> app.parent != nil && (forall k int :: 0 <= k && k < len(app.parent.components) ==> !typeis(app.parent.components[k], "t"))
